@@ -7,8 +7,8 @@ package sftp
 
 import (
 	"fmt"
-	"os"
 	"math/rand/v2"
+	"os"
 	"runtime"
 	"sort"
 	"strings"
@@ -93,23 +93,23 @@ type vfSim struct {
 	pipes    []*vfPipe
 	draining bool
 
-	seq      int
-	hash     uint64 // hash of the full event log (eligible sets + choices)
-	shash    uint64 // hash of the chosen keys only ("schedule")
-	trace    []string
-	traceOn  bool
-	viol     *vfViolation
-	stats    map[string]int
-	maxSteps int
-	steps    int
-	stuck    bool
-	inv      func() // invariant evaluated at every quiescent point
-	onStep   func(key string)
-	pct      bool           // priority scheduling instead of uniform choice
-	prio     map[string]int // event key -> priority
-	ticks    bool // allow clock ticks when nothing is eligible
-	sendProbe func() bool // if set, cc.send waiters are released only when this probe of the connection's write lock succeeds
-	start    time.Time
+	seq       int
+	hash      uint64 // hash of the full event log (eligible sets + choices)
+	shash     uint64 // hash of the chosen keys only ("schedule")
+	trace     []string
+	traceOn   bool
+	viol      *vfViolation
+	stats     map[string]int
+	maxSteps  int
+	steps     int
+	stuck     bool
+	inv       func() // invariant evaluated at every quiescent point
+	onStep    func(key string)
+	pct       bool           // priority scheduling instead of uniform choice
+	prio      map[string]int // event key -> priority
+	ticks     bool           // allow clock ticks when nothing is eligible
+	sendProbe func() bool    // if set, cc.send waiters are released only when this probe of the connection's write lock succeeds
+	start     time.Time
 }
 
 var vfTraceSets = os.Getenv("VF_TRACESETS") == "1"
